@@ -52,7 +52,7 @@ def run(tier):
         for it in range(n):
             # ---- (a) C&C XML over the English lexicon
             rf.set_lang('en')
-            b = trees.make_batch(rng, 'en', awkward=0.4)
+            b = trees.make_batch(rng, 'en', awkward=0.4, sparse=it % 3 == 2)
             base = {'lang': 'en', 'words': [[t['tok']['word'] for t in trees.leaves_of(s[0])] for s in b]}
             real = trees.real_batch(b, rng)
             rf.render_events(PROP, 'xml', 'en', b, real, add, base)
@@ -108,6 +108,7 @@ def run(tier):
     finally:
         P.ccg2lambda = orig
     rejects, stats = validate('traces/RenderTrace.tla', events, 'c15', per_shard=400)
+    demo = rf.render_binding_demo(events, 'c15')
     viols = []
     for (i, clause) in rejects:
         if clause.startswith(PROP + '.'):
@@ -117,7 +118,7 @@ def run(tier):
     for e in events:
         k = e['e'] + ':' + e.get('fmt', '')
         kinds[k] = kinds.get(k, 0) + 1
-    cov = {'states': stats.states, 'transitions': stats.transitions, 'traces_validated_against_impl': len(events),
+    cov = {'states': stats.states, 'transitions': stats.transitions, 'binding_demonstration': demo, 'traces_validated_against_impl': len(events),
            'events': {'iterations': n, 'by_kind': kinds},
            'samples': [{k: metas[i][k] for k in metas[i] if k in ('lang', 'fmt', 'words', 'text')} for i in (1, len(events) // 2, len(events))],
            'checker_cmd': stats.cmds[0] if stats.cmds else '',
